@@ -506,6 +506,12 @@ def run(tier, seed):
     r0 = recs[0]
     samples.append({"recorded": env_label(r0), "driver": r0["driver"], "n": r0["n"], "initial": r0["init"], "first_steps": r0["ev"][:3]})
     n_new, n_known = verdict.report(PID, viol)
+    classes = {}
+    for v in viol:
+        k = "%s | %s%s" % (v["env"], v["monitor"], " | " + v["cls"] if v.get("cls") else "")
+        classes[k] = classes.get(k, 0) + 1
+    if os.environ.get("C09_DUMP"):
+        tlc.dump_json(os.environ["C09_DUMP"], classes)
     by_driver = {}
     for r in recs:
         k = "%s/%s/%s" % (env_label(r), r["driver"], "exact" if r["tol"] == 0 else "float")
@@ -515,7 +521,7 @@ def run(tier, seed):
            "model_states": states, "model_clause_failures": n_mfail, "replayed_states": n_cmp, "mask_comparisons": n_mask,
            "sampler_draws_checked": n_sampled, "sampler_move_coverage": "%d/%d" % tuple(cover),
            "recorded_runs": len(recs), "recorded_steps": n_steps, "trace_states": tstates, "steps_by_driver": by_driver,
-           "mask_drift_notes": len(drifts), "model_instances": per_inst, "known_finding_witnesses": n_known,
+           "mask_drift_notes": len(drifts), "violation_classes": classes, "model_instances": per_inst, "known_finding_witnesses": n_known,
            "wall_split_s": {"tlc_model": round(t1 - t0, 1), "replay": round(t2 - t1, 1), "record": round(t3 - t2, 1),
                             "tlc_traces": round(time.time() - t3, 1)},
            "explanation": "Improve.tla (one batch row of TSPkoptEnv / PDPRuinRepairEnv with the move operators, move masks and "
